@@ -7,6 +7,7 @@ mod p_proto;
 mod p_final;
 mod p_peer;
 mod p_multi;
+mod p_mt;
 mod fs;
 mod gen;
 mod pure_codec;
@@ -82,6 +83,7 @@ fn main() {
         "C19" => p_proto::run_c19(&tier, seed, r),
         "C20" => p_proto::run_c20(&tier, seed, r),
         "C11" => p_multi::run_c11(&tier, seed, r),
+        "C11mt" => p_mt::run_c11mt(&tier, seed, r),
         "C07" => p_peer::run_c07(&tier, seed, r),
         "C08" => p_peer::run_c08(&tier, seed, r),
         "C04" => p_final::run_c04(&tier, seed, r),
